@@ -65,12 +65,49 @@ pub fn class_for(ctx: &RunCtx, w: &mut crate::prng::Rng) -> SizeClass {
     }
 }
 
+thread_local! {
+    static WARMED: std::cell::Cell<bool> = const { std::cell::Cell::new(false) };
+}
+
+/// Process pre-history: the first thing a worker process does is serve a small deployment that
+/// uses the compressor's built-in constants, through the compressed route, under a non-canonical
+/// environment that differs from process to process.  Whatever the library builds lazily and keeps
+/// for the life of the process is then built under *that* environment; the specification's
+/// digests (compared with the alloc-only build and with other processes) must not care.
+fn warm_up(seed: u64) {
+    let mut r = crate::prng::Rng::new(seed ^ 0x57A7);
+    let t = crate::program::hades_table();
+    let mut ops = Vec::new();
+    for _ in 0..4 {
+        ops.push(Op::GateAdd { l: t[r.usize(t.len())], r: t[335 + r.usize(25)], f: t[r.usize(t.len())], c: t[335 + r.usize(25)], a: 0, b: 1, d: 0, pi: false });
+    }
+    let prog = Arc::new(Program { ops });
+    let env = EnvCfg { threads: 3 + r.usize(9), sched_seed: r.u64() | 1, sched_budget: u64::MAX, hash_seed: r.u64() | 1 };
+    let pp = deploy::pp_with_degree(32);
+    let _ = deploy::compile(&pp, b"warm-up", &prog, Route::Compressed, &env);
+}
+
 pub fn run(ctx: &mut RunCtx) -> Result<(), Violation> {
+    if !WARMED.with(|x| x.replace(true)) {
+        warm_up(ctx.seed ^ ctx.run.wrapping_mul(0x9E37_79B9_7F4A_7C15));
+    }
     let mut w = ctx.stream("workload");
     let mut s = ctx.stream("sched");
     let mut h = ctx.stream("history");
     let class = class_for(ctx, &mut w);
+    // a third of the runs draws selectors from the compressor's built-in constant table
+    let pooled = w.chance(1, 3);
+    if pooled {
+        let t = crate::program::hades_table();
+        let mut pool = t.clone();
+        for _ in 0..13 {
+            pool.extend_from_slice(&t[335..]);
+        }
+        crate::program::set_const_pool(pool);
+        ctx.st.probe("programs_with_builtin_table_constants");
+    }
     let sc = gen_scenario(ctx, &mut w, &ScenCfg { class, heavy: false, raw: true, exact_target: true, max_ops: 24 });
+    crate::program::set_const_pool(Vec::new());
     let sig = scenario_sig(&sc);
     // in half of the runs the process has already served a deployment under a sibling label
     // (same length, one byte changed) before the specification is computed: outputs may depend
